@@ -139,6 +139,13 @@ func (s *Store) NumBlocks() int {
 	return len(s.blocks)
 }
 
+// FailNextAdd makes the next Add attempt fail ("error") or be silently dropped ("lost").
+func (s *Store) FailNextAdd(kind string) {
+	s.mu.Lock()
+	s.AddFailAt[s.addCount] = kind
+	s.mu.Unlock()
+}
+
 func (s *Store) Dag() coreiface.APIDagService { return &dagSvc{s} }
 func (s *Store) Pin() coreiface.PinAPI         { return &pinSvc{s: s} }
 
